@@ -9,6 +9,7 @@ import json
 import re
 import shutil
 
+import syslog
 import vlib
 
 LEVEL = "fault_enumeration"
@@ -23,13 +24,15 @@ def _build():
 
 def setup():
     _build()
+    syslog.sysmon_bin()
 
 
 RULE = ("seeded histories of malloc/calloc/realloc/free (1000-3000 ops quick, up to 20000 thorough; sizes biased to MIN_CHUNK, "
         "small-bin, tree-bin, 64 KiB granularity and 2 MiB trim edges, and to the current top/dv size; alignments 1..8192; "
         "grow/churn/drain phases and free-everything sweeps in address/reverse/fifo/lifo/alternate/random order), each run in its own "
         "process without refusal, with ~24-40 sampled refusal windows (single calls and runs of 2-60 calls) and, for short histories, "
-        "once per op index with the refusal at exactly that call; distinct = (operation, size class, alignment class, path taken "
+        "once per op index with the refusal at exactly that call; plus trim-heavy histories (64 KiB-8 MiB blocks, in-place shrinks and "
+        "frees of the block next to top) under sysmon with mremap and/or munmap failing throughout or at sampled calls; distinct = (operation, size class, alignment class, path taken "
         "classified from verif_stats deltas, refused or not) cells plus phases/styles/profiles")
 
 
@@ -41,7 +44,11 @@ def _replay(ck, path, dbg, rel):
         return
     d = dbg if det.get("profile", "debug") == "debug" else rel
     first = max(0, int(det.get("clean_at", det.get("op_index", 0))) - 1)
-    argv = [d + "/c03", "hist", str(det["seed"]), str(det["nops"]), "w=" + det.get("faults", ""), "k1from=%d" % first]
+    faults = det.get("faults", "")
+    fargs = faults.split() if "=" in faults else ["w=" + faults]
+    argv = [d + "/c03", "hist", str(det["seed"]), str(det["nops"])] + fargs + ["k1from=%d" % first]
+    if any(a.startswith("s=") and len(a) > 2 for a in fargs):  # mremap/munmap failures come from the ptrace monitor
+        argv = [syslog.sysmon_bin(), "--log", "/dev/null", "--timeout-s", "900", "--idle-ms", "0", "--"] + argv
     setarch = shutil.which("setarch")
     if setarch:  # histories are planned with ASLR off (address-ordered sweeps)
         argv = [setarch, "x86_64", "-R"] + argv
@@ -57,6 +64,7 @@ def run(ck, replay=None):
     if replay:
         _replay(ck, replay, dbg, rel)
         return RULE
+    sysmon = syslog.sysmon_bin()
     nshard = 16
     per_shard = 3 if quick else 20
     jobs = []
@@ -64,7 +72,7 @@ def run(ck, replay=None):
     for prof, d in (("debug", dbg), ("release", rel)):
         for i in range(nshard):
             jobs.append(dict(argv=[d + "/c03", "batch", str(ck.seed % 1_000_000_007 + (0 if prof == "debug" else 17)),
-                                   str(per_shard), "tier=" + ck.tier, "shard=%d/%d" % (i, nshard)],
+                                   str(per_shard), "tier=" + ck.tier, "shard=%d/%d" % (i, nshard), "sysmon=" + sysmon],
                              timeout=600 if quick else 7200))
             labels.append("%s batch shard %d" % (prof, i))
     # second opinion on a small budget: the release harness under memcheck (no refusal windows there:
@@ -98,7 +106,9 @@ def run(ck, replay=None):
     ck.exhaustive = False
     ck.extra["refusal_position_exhaustive_on_short_histories"] = ck.counters.get("short_histories_with_refusal_at_every_op_index", 0) > 0
     ck.assume("the kernel's refusal is produced by lowering the soft RLIMIT_AS to one page around exactly one allocator call "
-              "(mmap and growing mremap fail with ENOMEM); munmap refusal is not injected")
+              "(mmap and growing mremap fail with ENOMEM); failing mremap (incl. the shrinking one of sys_trim) and munmap are produced "
+              "by the ptrace monitor sysmon around the allocator calls of trim-heavy histories (whole history, and sampled calls; "
+              "ENOMEM / EINVAL), with all live blocks re-verified after every such call that changed footprint/top/segments")
     ck.assume("'null required' is judged conservatively: a non-null result under refusal is refuted only when the request exceeds "
               "footprint - live bytes (it cannot have come from held memory) or the footprint grew; every non-null result is "
               "checked for alignment, disjointness, content like any other")
